@@ -1557,6 +1557,47 @@ static string opOwnAlpha(const vector<string>& a)
 	return out;
 }
 
+// ltsc <step> ... : histories on the container ExplicitLTS itself: `new!n`, `add!q!a!r`, `init`, `clear`; after every `init` all public views
+// are dumped in one token: states / labels / post and pre per (label, state) / bwLabels per state as key:count in iteration order / the keys
+// of buildDelta1 per label
+static string ltsViews(const ExplicitLTS& l)
+{
+	std::ostringstream os;
+	auto list = [&](const std::vector<size_t>& v) { for (size_t i = 0; i < v.size(); ++i) { if (i) os << ","; os << v[i]; } };
+	os << "states:" << l.states() << "/labels:" << l.labels() << "/post:";
+	for (size_t a = 0; a < l.labels(); ++a) for (size_t q = 0; q < l.states(); ++q) { os << a << "." << q << "="; list(l.post(a).at(q)); os << ";"; }
+	os << "/pre:";
+	for (size_t a = 0; a < l.labels(); ++a) for (size_t q = 0; q < l.states(); ++q) { os << a << "." << q << "="; list(l.pre(a).at(q)); os << ";"; }
+	os << "/bw:";
+	for (size_t r = 0; r < l.states(); ++r) {
+		os << r << "=";
+		bool f = true;
+		for (auto k : l.bwLabels(r)) { if (!f) os << ","; f = false; os << k << ":" << l.bwLabels(r).count(k); }
+		os << ";";
+	}
+	os << "/d1:";
+	std::vector<Util::SmartSet> d1;
+	l.buildDelta1(d1);
+	for (size_t a = 0; a < l.labels(); ++a) { os << a << "="; bool f = true; for (auto k : d1.at(a)) { if (!f) os << ","; f = false; os << k; } os << ";"; }
+	return os.str();
+}
+
+static string opLtsC(const vector<string>& steps)
+{
+	std::unique_ptr<ExplicitLTS> l(new ExplicitLTS());
+	std::ostringstream out;
+	for (size_t k = 0; k < steps.size(); ++k) {
+		vector<string> f = split(steps[k], '!');
+		if (f.at(0) == "new") l.reset(new ExplicitLTS(toN(f.at(1))));
+		else if (f.at(0) == "add") l->addTransition(toN(f.at(1)), toN(f.at(2)), toN(f.at(3)));
+		else if (f.at(0) == "clear") l->clear();
+		else if (f.at(0) == "init") { l->init(); out << " V" << k << "=" << ltsViews(*l); }
+		else throw std::invalid_argument("unknown step " + f.at(0));
+	}
+	string r = out.str();
+	return r.empty() ? "none=1" : r.substr(1);
+}
+
 // parse2 <hex t0> <hex t1> : two spellings of one description (nullary rules with / without parentheses and blanks, layout)
 static string opParse2(const vector<string>& a)
 {
@@ -1988,6 +2029,7 @@ static string runCase(const string& kind, const vector<string>& args)
 	if (kind == "isectbu") return opIsect(args, true);
 	if (kind == "mapsx") return opMapsX(args);
 	if (kind == "parse2") return opParse2(args);
+	if (kind == "ltsc") return opLtsC(args);
 	if (kind == "ownalpha") return opOwnAlpha(args);
 	if (kind == "trim") return opTrim(args);
 	if (kind == "cand") return opCand(args);
